@@ -189,7 +189,7 @@ def _req_lists(c):
     s = q()
     return And(ForAll([s], Implies(c.pre.alive(s), And(c.cur.llen(s) == c.pre.llen(s),
                                                        Select(c.cur.H('$lat'), s) == Select(c.pre.H('$lat'), s))),
-                      patterns=[c.cur.llen(s)]), roles_frame(c.pre, c.cur))
+                      patterns=[c.cur.llen(s), Select(c.cur.H('$lat'), s)]), roles_frame(c.pre, c.cur))
 
 
 c.ensures('adds-exactly-the-leaves-except-self', _req_add, props=['C19', 'C18'])
@@ -388,7 +388,7 @@ c.ensures('result-fresh', lambda c: And(Not(c.pre.alive(c.result)), c.cur.alive(
 c.ensures('elements-are-live-jobs', lambda c: And(c.cur.llen(c.result) >= 0, seq_jobs_ok(c.cur, c.result)))
 c.ensures('frame[lists]', lambda c: (lambda s: ForAll([s], Implies(c.pre.alive(s), And(
     c.cur.llen(s) == c.pre.llen(s), Select(c.cur.H('$lat'), s) == Select(c.pre.H('$lat'), s))),
-    patterns=[c.cur.llen(s)]))(q()))
+    patterns=[c.cur.llen(s), Select(c.cur.H('$lat'), s)]))(q()))
 
 
 def seq_jobs_ok(st, sj):
@@ -408,7 +408,7 @@ def _fl_loop(c):
         ('elements-are-live-jobs', And(st.llen(res) >= 0, seq_jobs_ok(st, res))),
         ('frame[lists]', ForAll([s], Implies(c.pre.alive(s), And(
             st.llen(s) == c.pre.llen(s), Select(st.H('$lat'), s) == Select(c.pre.H('$lat'), s))),
-            patterns=[st.llen(s)])),
+            patterns=[st.llen(s), Select(st.H('$lat'), s)])),
     ]
 
 
@@ -456,16 +456,22 @@ c.for_props('C19')
 c.requires('self-is-scheduler', lambda c: is_sched(c.a.self))
 c.requires('arguments-are-jobs-sequences-or-None', lambda c: flatten_args_ok(c.pre, c.a.jobs))
 c.modifies('$alive', '$llen', '$lat', '$elems', '$setrole')
-c.ensures('registers-exactly-the-jobs-involved', lambda c: (lambda y: ForAll([y],
-          member(c.cur, c.a.self, y) == Or(member(c.pre, c.a.self, y), contributed(c.pre, c.a.jobs, y)),
-          patterns=[member(c.cur, c.a.self, y)]))(q()), props=['C19'])
+def _upd_main(c):
+    if c.mode == 'assume':
+        c.cur.g['$update-call'] = dict(pre=c.pre)
+    y = q()
+    return ForAll([y], member(c.cur, c.a.self, y) == Or(member(c.pre, c.a.self, y), contributed(c.pre, c.a.jobs, y)),
+                  patterns=[member(c.cur, c.a.self, y)])
+
+
+c.ensures('registers-exactly-the-jobs-involved', _upd_main, props=['C19'])
 c.ensures('returns-self', lambda c: c.result == c.a.self, props=['C19'])
 c.ensures('frame[elems]', lambda c: (lambda s: ForAll([s], Implies(
     And(c.pre.alive(s), s != c.pre.f('jobs', c.a.self)), c.cur.elems(s) == c.pre.elems(s)),
     patterns=[c.cur.elems(s)]))(q()))
 c.ensures('frame[lists]', lambda c: (lambda s: ForAll([s], Implies(c.pre.alive(s), And(
     c.cur.llen(s) == c.pre.llen(s), Select(c.cur.H('$lat'), s) == Select(c.pre.H('$lat'), s))),
-    patterns=[c.cur.llen(s)]))(q()))
+    patterns=[c.cur.llen(s), Select(c.cur.H('$lat'), s)]))(q()))
 
 
 def flat_view_lemmas(c, st):
@@ -662,7 +668,7 @@ def _si_loop(c):
                              ForAll([s], Implies(c.loop_pre.alive(s), And(
                                  st.llen(s) == c.loop_pre.llen(s),
                                  Select(st.H('$lat'), s) == Select(c.loop_pre.H('$lat'), s),
-                                 st.f('$setrole', s) == c.loop_pre.f('$setrole', s))), patterns=[st.llen(s)]))),
+                                 st.f('$setrole', s) == c.loop_pre.f('$setrole', s))), patterns=[st.llen(s), Select(st.H('$lat'), s)]))),
         ('other-sets', ForAll([s], Implies(And(c.pre.alive(s), st.f('$setrole', s) != 1), st.elems(s) == c.pre.elems(s)),
                               patterns=[st.elems(s)])),
         ('argument-structure-stable', And(arg_closure(st, c.ghost['ARG']), argok(st, c.a.required, c.ghost['ARG']))),
@@ -745,7 +751,7 @@ def _ap_loop(c):
         ('lists-stable', And(st.H('seqjobs') == lp.H('seqjobs'), st.H('scheduler') == lp.H('scheduler'),
                              ForAll([s], Implies(lp.alive(s), And(
                                  st.llen(s) == lp.llen(s), Select(st.H('$lat'), s) == Select(lp.H('$lat'), s),
-                                 st.f('$setrole', s) == lp.f('$setrole', s))), patterns=[st.llen(s)]))),
+                                 st.f('$setrole', s) == lp.f('$setrole', s))), patterns=[st.llen(s), Select(st.H('$lat'), s)]))),
         ('other-sets', ForAll([s], Implies(And(c.pre.alive(s), st.f('$setrole', s) != 1), st.elems(s) == c.pre.elems(s)),
                               patterns=[st.elems(s)])),
     ]
@@ -764,7 +770,15 @@ def _ap_post_hints(c):
     nnew = off(c.pre.llen(c.a.sequences_or_jobs))
     start = z3.If(n0 >= 1, n0 - 1, 0)
     i = fresh('i', L.I)
-    return [
+    pre_l = []
+    up = st.g.get('$update-call')
+    if up is not None:
+        us = up['pre']
+        pre_l = [L.Lemma('the-registration-leaves-the-lists-alone', And(
+            st.llen(sj) == us.llen(sj), Select(st.H('$lat'), sj) == Select(us.H('$lat'), sj),
+            st.llen(res) == us.llen(res), Select(st.H('$lat'), res) == Select(us.H('$lat'), res),
+            st.llen(chain) == us.llen(chain), Select(st.H('$lat'), chain) == Select(us.H('$lat'), chain)))]
+    return pre_l + [
         L.Lemma('length-of-the-chain', st.llen(chain) == z3.If(n0 >= 1, 1, 0) + nnew),
         L.Lemma('the-new-list-is-still-there', And(st.llen(res) == nnew, st.alive(res))),
         L.Lemma('the-extended-list', And(st.llen(sj) == n0 + nnew, ForAll([i], Implies(
